@@ -183,6 +183,12 @@ class World:
             eng.finals = finals
             eng.entry_frame = fr.id
             return eng
+        if name == "client":
+            eng = self.engine()
+            fr, finals = eng.run("tftpd::client::Client::run", region="client")
+            eng.finals = finals
+            eng.entry_frame = fr.id
+            return eng
         if name.startswith("fn:"):
             path = name[3:]
             eng = self.engine()
